@@ -23,7 +23,9 @@ tvars == <<A, l, m, rep>>
 
 NoRnd == [p |-> "none", rows |-> <<>>, l |-> "none", lver |-> ""]
 M0 == [scn |-> 0, kind |-> "", ddl |-> "none", cur |-> NoRnd, last |-> NoRnd, cancelled |-> FALSE, afterCancel |-> 0,
-       polls |-> 0, active |-> FALSE, told |-> FALSE]
+       polls |-> 0, active |-> FALSE, told |-> FALSE,
+       sure |-> TRUE]   \* the answers of the last round were given before the context ended (after that the driver may
+                        \* have abandoned the query the node still answers)
 
 Cur == Log[l]
 RowsOf(x) == [i \in 1 .. Len(x) |-> [kind |-> x[i][1], ver |-> x[i][2]]]
@@ -39,20 +41,26 @@ StepOf(r, mm) ==
          LET c == [p |-> r.ans, rows |-> RowsOf(r.rows), l |-> "none", lver |-> ""]
              \* [S1] the wait ends at the round that shows agreement: no further poll
              \* (reported once per wait)
-             v1 == IF mm.active /\ ~mm.told /\ RoundAgrees(mm.last) THEN {V(CompleteKey(mm.last), r, mm.last)} ELSE {}
+             v1 == IF mm.active /\ ~mm.told /\ mm.sure /\ RoundAgrees(mm.last) THEN {V(CompleteKey(mm.last), r, mm.last)} ELSE {}
+             n == IF mm.cancelled THEN mm.afterCancel + 1 ELSE mm.afterCancel
+             v2 == IF mm.active /\ n = 3 /\ mm.afterCancel = 2 THEN {V("await-ignores-cancel", r, n)} ELSE {}
          IN <<[mm EXCEPT !.cur = c, !.last = IF r.ans = "ok" THEN @ ELSE c, !.polls = @ + 1, !.told = @ \/ v1 # {},
-                         !.afterCancel = IF mm.cancelled THEN @ + 1 ELSE @], v1, {}, {}>>
+                         !.sure = ~mm.cancelled, !.afterCancel = n], v1 \cup v2, {}, {}>>
     [] r.ev = "a_local" ->
-         LET c == [mm.cur EXCEPT !.l = r.ans, !.lver = r.lver] IN <<[mm EXCEPT !.cur = c, !.last = c], {}, {}, {}>>
+         LET c == [mm.cur EXCEPT !.l = r.ans, !.lver = r.lver] IN
+         <<[mm EXCEPT !.cur = c, !.last = c, !.sure = mm.sure /\ ~mm.cancelled], {}, {}, {}>>
     [] r.ev = "cancel" -> <<[mm EXCEPT !.cancelled = TRUE], {}, {}, {}>>
+    \* a request the connection refused because its context was done: a poll attempted after the cancellation
+    [] r.ev = "x_ctx" ->
+         LET n == IF mm.active /\ mm.cancelled THEN mm.afterCancel + 1 ELSE mm.afterCancel IN
+         <<[mm EXCEPT !.afterCancel = n], IF n = 3 /\ mm.afterCancel = 2 THEN {V("await-ignores-cancel", r, n)} ELSE {}, {}, {}>>
     [] r.ev = "aw_end" /\ r.kind = "await" ->
          LET agreed == RoundAgrees(mm.last)
              v == (IF r.ans = "nil" /\ ~agreed THEN {V("await-nil-without-agreement", r, mm.last)} ELSE {})
-                  \cup (IF r.ans # "nil" /\ agreed /\ ~mm.told THEN {V(CompleteKey(mm.last), r, <<r.ans, mm.last>>)} ELSE {})
+                  \* (once the context has ended the driver may have abandoned a query whose answer the node logged)
+                  \cup (IF r.ans # "nil" /\ agreed /\ ~mm.cancelled /\ ~mm.told THEN {V(CompleteKey(mm.last), r, <<r.ans, mm.last>>)} ELSE {})
                   \cup (IF r.ans = "disagree" /\ ~r.late THEN {V("await-error-before-maxwait", r, r.ms)} ELSE {})
                   \cup (IF r.ans = "ctx" /\ ~mm.cancelled THEN {V("await-ctx-error-without-cancel", r, "")} ELSE {})
-                  \* [S4] one poll may be under way when the context ends, and one answer may race with it
-                  \cup (IF mm.afterCancel > 2 THEN {V("await-ignores-cancel", r, mm.afterCancel)} ELSE {})
              d == IF r.ans \notin {"nil", "disagree", "ctx"} THEN {V("await-unexpected-error", r, r.ans)} ELSE {}
          IN <<[mm EXCEPT !.active = FALSE], v, d, {}>>
     [] r.ev = "aw_end" /\ r.kind = "ddl" ->
@@ -60,7 +68,6 @@ StepOf(r, mm) ==
              \* [S2] the statement returns after agreement was seen, after the deadline, or when its context ended
              v == (IF mm.ddl = "applied" /\ ~(agreed \/ r.late \/ mm.cancelled)
                      THEN {V("ddl-returned-before-agreement", r, mm.last)} ELSE {})
-                  \cup (IF mm.ddl = "applied" /\ mm.afterCancel > 2 THEN {V("await-ignores-cancel", r, mm.afterCancel)} ELSE {})
              d == (IF mm.ddl = "applied" /\ r.ans = "err" /\ ~mm.cancelled
                      THEN {V("ddl-returns-agreement-error", r, "the statement was applied; conn.go only logs the outcome of the wait")} ELSE {})
                   \cup (IF mm.ddl = "rejected" /\ r.ans = "ok" THEN {V("ddl-rejected-without-error", r, "")} ELSE {})
